@@ -195,11 +195,11 @@ static void setup_utf8dec(const Args& a, Runner& R) {
     g_u8cases.push_back(U8Case{2, 0, 0});
     for (int b = 0; b < 256; b++) g_u8cases.push_back(U8Case{3, (uint32_t)b, 0});
     if (mode == "quick") {
-        // 4-byte strings: (a) every string over the 32 boundary bytes (32^4); (b) every string whose first byte is F0..F7 and whose
-        // second byte is one of 16 boundary values, with ALL third and fourth bytes
-        static const int B1[] = {0x00, 0x7F, 0x80, 0x8F, 0x90, 0x9F, 0xA0, 0xBF, 0xC0, 0xC2, 0xE0, 0xED, 0xF0, 0xF4, 0xF5, 0xFF};
+        // 4-byte strings: (a) every string over the 32 boundary bytes (32^4); (b) every string whose first byte is F0,F1,F4,F5 and whose
+        // second byte is one of 6 boundary values (7F,80,8F,90,BF,C0), with ALL third and fourth bytes (24 x 65536)
+        static const int B1[] = {0x7F, 0x80, 0x8F, 0x90, 0xBF, 0xC0};
         std::set<uint32_t> full;
-        for (int b0 = 0xF0; b0 <= 0xF7; b0++) for (int b1 : B1) full.insert((uint32_t)(b0 << 8 | b1));
+        for (int b0 : {0xF0, 0xF1, 0xF4, 0xF5}) for (int b1 : B1) full.insert((uint32_t)(b0 << 8 | b1));
         for (uint32_t p : full) g_u8cases.push_back(U8Case{4, p, 0});
         for (int b0 : U8_BOUNDARY) for (int b1 : U8_BOUNDARY) { uint32_t p = (uint32_t)(b0 << 8 | b1); if (!full.count(p)) g_u8cases.push_back(U8Case{4, p, 2}); }
     } else if (mode == "thorough") {
@@ -225,6 +225,7 @@ static void setup_utf8dec(const Args& a, Runner& R) {
 // space enc: every scalar value through transcodeTo / canTranscodeTo of every encoding
 // =================================================================================================
 static const uint32_t ENC_BLOCK = 4096;
+static uint32_t g_enc_thin = 16;   // supplementary code points: exception mode / block variants only for every g_enc_thin-th one (1 = all)
 static const uint32_t ENC_NBLOCKS = 0x110000 / ENC_BLOCK;
 
 // stream-encode `u` the way a block-wise caller does: source blocks of `sb` units, output blocks of `mb` bytes
@@ -312,7 +313,7 @@ static void run_enc(uint64_t idx, Ctx& c) {
             if (table && cp == 0) continue;
         }
         // 2. transcodeTo, throwing mode (all BMP; supplementary unrepresentable ones thinned to every 16th: same code path, exceptions are slow)
-        bool do_throw_mode = repr || cp < 0x10000 || (cp & 0xF) == 0 || cp >= 0x10FFF0;
+        bool do_throw_mode = repr || cp < 0x10000 || (cp % (g_enc_thin * 4)) == 0 || cp >= 0x10FFF0;
         if (do_throw_mode) {
             ToRes r = x_to(t, u.data(), u.size(), 16);
             if (E.kind == R_UCS4BE && cp >= 0x10000 && !r.threw && r.eaten == 2 && r.out == ref_utf32_encode(cp, false)) {
@@ -350,7 +351,7 @@ static void run_enc(uint64_t idx, Ctx& c) {
             } else cnt["roundtrip_ok"]++;
         }
         // 5. block variants: the character as last item of a source block of 1..8 units (splits a surrogate pair), and output blocks of 1..8 bytes
-        bool variants = full_variants || cp < 0x10000 || (cp & 0x3F) == 0 || cp >= 0x10FFC0;
+        bool variants = cp < 0x10000 || cp >= 0x10FFC0 || (full_variants ? (cp % g_enc_thin) == 0 : (cp % (g_enc_thin * 4)) == 0);
         if (!variants) continue;
         for (size_t sb = 1; sb <= 8 && cp >= 0x10000; sb++) {
             U16 w(sb - 1, (uint16_t)'a'); w += u; w += (uint16_t)'z';
@@ -383,10 +384,11 @@ static void run_enc(uint64_t idx, Ctx& c) {
 }
 static void setup_enc(const Args& a, Runner& R) {
     select_encs(a);
+    g_enc_thin = (uint32_t)a.num("thin", 16);
     R.total = (uint64_t)g_encsel.size() * ENC_NBLOCKS;
     R.fn = run_enc;
     R.describe = [](uint64_t i) { return "{\"encoding\":" + jstr(ENCS[g_encsel[i / ENC_NBLOCKS]].xname) + ",\"block\":" + std::to_string((i % ENC_NBLOCKS) * ENC_BLOCK) + "}"; };
-    R.extra_json = "\"bounds\":" + jstr("every scalar value x " + std::to_string(g_encsel.size()) + " encodings");
+    R.extra_json = "\"bounds\":" + jstr("every scalar value x " + std::to_string(g_encsel.size()) + " encodings; block variants / exception mode of supplementary code points thinned 1/" + std::to_string(g_enc_thin));
 }
 
 // =================================================================================================
@@ -531,7 +533,7 @@ static void setup_ucs4(const Args& a, Runner& R) {
     g_u4[0] = make_tc("UCS-4LE"); g_u4[1] = make_tc("UCS-4BE");
     std::string mode = a.str("mode", "quick");
     std::vector<int> cls;
-    if (mode == "quick") { g_u4dense = 0x200000; cls = {0x00, 0x01, 0x0F, 0x10, 0x11, 0x1F, 0x20, 0x41, 0x7F, 0x80, 0xD7, 0xD8, 0xDB, 0xDC, 0xDF, 0xE0, 0xFD, 0xFE, 0xFF, 0x04}; }
+    if (mode == "quick") { g_u4dense = 0x120000; cls = {0x00, 0x01, 0x0F, 0x10, 0x11, 0x1F, 0x20, 0x41, 0x7F, 0x80, 0xD7, 0xD8, 0xDB, 0xDC, 0xDF, 0xE0, 0xFD, 0xFE, 0xFF, 0x04}; }
     else { g_u4dense = 0x1000000; for (int b = 0; b < 256; b++) if (b < 0x14 || (b & 7) == 0 || (b & 7) == 7 || (b >= 0xD6 && b <= 0xE1) || b >= 0xFC || b == 0x41) cls.push_back(b); }
     for (int a3 : cls) for (int a2 : cls) for (int a1 : cls) for (int a0 : cls) {
         uint32_t v = (uint32_t)a3 << 24 | (uint32_t)a2 << 16 | (uint32_t)a1 << 8 | (uint32_t)a0;
